@@ -329,13 +329,76 @@ def error_contract(mon, rec, rng, d, U):
     q2 = os.path.join(d, "file.dat")
     shutil.copy(p + ".npy", q2)
     cases.append((q2, {"force_as": ""}, ValueError, "unrecognised suffix with unknown force_as ''"))
+    # streams that are real files opened from a path (they carry a .name; a recognised suffix there changes nothing), from a
+    # descriptor (.name is an int) and an unnamed temporary file: without force_as each is refused with ValueError
+    opened = []
+    for name in ("real.npy", "real.wav", "real_no_suffix"):
+        q = os.path.join(d, name)
+        shutil.copy(p + ".npy", q)
+        f = open(q, "rb")
+        opened.append(f)
+        cases.append((f, {}, ValueError, "open file %r without force_as" % name))
+        f = open(q, "rb")
+        opened.append(f)
+        cases.append((f, {"force_as": None}, ValueError, "open file %r with force_as=None" % name))
+    f = open(os.open(p + ".npy", os.O_RDONLY), "rb")
+    opened.append(f)
+    cases.append((f, {}, ValueError, "file opened from a descriptor without force_as"))
+    f = tempfile.TemporaryFile()
+    f.write(open(p + ".npy", "rb").read())
+    f.seek(0)
+    opened.append(f)
+    cases.append((f, {}, ValueError, "temporary file without force_as"))
     for target, kw, exc, what in cases:
         mon.register(target, raises=exc, info=dict(what=what))
         try:
             U.read_signal(target, **kw)
         except Exception:
             pass
+    for f in opened:
+        f.close()
+    rec.count("error_cases_on_real_file_objects", len(opened))
     rec.nt(("error_contract",))
+
+
+def rewritten_files(mon, rec, rng, d, U):
+    """What read_signal returned is the caller's array: writing other data to the same path afterwards (with the container's own
+    writer, or in place) does not change it.  Recordings of a few KiB and of more than a MiB."""
+    for kind in ("npy", "npy", "raw", "pt", "hdf5", "wav16", "npz"):
+        for big in (False, True):
+            n = int(rng.integers(600000, 700000)) if big else int(rng.integers(100, 3000))
+            if kind == "wav16":
+                x = rng.integers(-30000, 30000, size=(n, 1)).astype(np.int16)
+                y = (x // 2 + 1).astype(np.int16)
+            else:
+                x = rng.integers(-30000, 30000, size=n).astype(np.int16)
+                y = (x // 2 + 1).astype(np.int16)
+            path = os.path.join(d, "rewrite_%s_%d%s" % (kind, int(big), SUFFIX[kind]))
+            key = write(kind, x, path, rng)
+            kw = {"dtype": np.int16, "force_as": "file"} if kind == "raw" else {}
+            info = dict(kind=kind, shape=list(x.shape), stored_dtype=str(x.dtype), channels=1, entries=1, cast=None, access="name", key=key, name=os.path.basename(path))
+            mon.register(path, expected=np.ascontiguousarray(expected_of(kind, x)), info=info)
+            try:
+                first = U.read_signal(path, **kw)
+            except Exception:
+                continue
+            snap = np.array(first, copy=True)
+            if rng.random() < 0.5:
+                write(kind, y, path, rng)  # the writer truncates and rewrites the same file
+            else:
+                with open(path, "r+b") as f:  # overwritten in place, same size
+                    blob = f.read()
+                    f.seek(0)
+                    tmp = path + ".tmp" + SUFFIX[kind]
+                    write(kind, y, tmp, rng)
+                    new = open(tmp, "rb").read()
+                    os.unlink(tmp)
+                    f.write(new if len(new) == len(blob) else blob[: len(blob) // 2] + bytes(len(blob) - len(blob) // 2))
+            rec.ev()
+            rec.count("results_held_while_the_file_was_rewritten" + ("_over_1MiB" if big else ""))
+            if np.asarray(first).shape != snap.shape or not np.array_equal(np.asarray(first), snap):
+                mon.v("the array read from a %s file (%d samples) changed when the file was written to afterwards" % (kind, n), check="result_follows_file", **info)
+            mon.expect.clear()
 
 
 # ---------------------------------------------------------------- hostile inputs (isolated children)
@@ -503,6 +566,7 @@ def run_case(case, rec, mon=None):
         elif case["kind"] == "errors":
             error_contract(mon, rec, rng, d, U)
             mon.expect.clear()
+            rewritten_files(mon, rec, rng, d, U)
         else:
             hostile(mon, rec, rng, d, case["n"])
             rec.sample({"kind": "hostile", "n": case["n"]})
